@@ -216,13 +216,32 @@ pub trait Sut {
 // sync
 // ------------------------------------------------------------------------------------------
 
-pub struct SyncSut {
+pub struct SyncSut<KH: stretto::KeyBuilder<Key = u64> = TableKB, C = TagCoster, U = Validator> {
     /// use the panicking wrappers (insert, insert_with_ttl, insert_if_present, remove) instead of try_*
     pub wrappers: bool,
     pub cap: usize,
-    pub cache: SCache,
-    pub proc_: RefCell<ParkedProcessor<Val, Validator, RecCallback, DetS>>,
+    pub cache: Cache<u64, Val, KH, C, U, RecCallback, DetS>,
+    pub proc_: RefCell<ParkedProcessor<Val, U, RecCallback, DetS>>,
     pub cb: RecCallback,
+}
+
+/// the builder's own key builder, coster and update validator (recording callback and fixed hasher kept)
+pub type SyncSutDefaults = SyncSut<stretto::DefaultKeyBuilder<u64>, stretto::DefaultCoster<Val>, stretto::DefaultUpdateValidator<Val>>;
+
+impl SyncSutDefaults {
+    pub fn build_defaults(cfg: &BuildCfg) -> Result<Self, stretto::CacheError> {
+        let cb = RecCallback::default();
+        *cb.canon.lock() = Some(cfg.keys.iter().copied().collect());
+        let (cache, proc_) = CacheBuilder::<u64, Val>::new(cfg.num_counters, cfg.max_cost)
+            .set_buffer_size(cfg.buffer_size)
+            .set_buffer_items(cfg.buffer_items)
+            .set_ignore_internal_cost(cfg.ignore_internal_cost)
+            .set_metrics(cfg.metrics)
+            .set_callback(cb.clone())
+            .set_hasher(DetS::default())
+            .verif_finalize_parked()?;
+        Ok(SyncSut { wrappers: cfg.order >= 5, cap: cfg.buffer_size, cache, proc_: RefCell::new(proc_), cb })
+    }
 }
 
 impl SyncSut {
@@ -240,7 +259,14 @@ impl SyncSut {
             cb,
         })
     }
+}
 
+impl<KH, C, U> SyncSut<KH, C, U>
+where
+    KH: stretto::KeyBuilder<Key = u64> + Send + Sync + 'static,
+    C: stretto::Coster<Value = Val>,
+    U: stretto::UpdateValidator<Value = Val>,
+{
     fn do_step(&self, kind: StepKind) -> Option<StepObs> {
         let r = match self.proc_.try_borrow_mut() {
             Ok(mut p) => match kind {
@@ -306,7 +332,12 @@ fn unwrapped<T>(f: impl FnOnce() -> T) -> Result<T, String> {
     })
 }
 
-impl Sut for SyncSut {
+impl<KH, C, U> Sut for SyncSut<KH, C, U>
+where
+    KH: stretto::KeyBuilder<Key = u64> + Send + Sync + 'static,
+    C: stretto::Coster<Value = Val>,
+    U: stretto::UpdateValidator<Value = Val>,
+{
     fn insert(&self, k: u64, v: Val, cost: i64, ttl: Duration) -> Result<bool, String> {
         if self.wrappers {
             return unwrapped(|| if ttl.is_zero() { self.cache.insert(k, v, cost) } else { self.cache.insert_with_ttl(k, v, cost, ttl) });
@@ -359,7 +390,7 @@ impl Sut for SyncSut {
         // `clear.wait_ack`; the processor then takes `pre` more items and handles the clear signal.
         let steps: std::rc::Rc<RefCell<Vec<StepObs>>> = Default::default();
         let steps2 = steps.clone();
-        let me: *const SyncSut = self;
+        let me: *const SyncSut<KH, C, U> = self;
         stretto::verif::set_thread_yield_hook(Some(Box::new(move |id| {
             if id == "clear.wait_ack" {
                 // SAFETY: the hook only runs synchronously inside `self.cache.clear()` below.
@@ -442,7 +473,18 @@ impl Sut for SyncSut {
         }
     }
     fn snapshot(&self) -> Snapshot<Val> {
-        self.cache.verif_snapshot()
+        let mut s = self.cache.verif_snapshot();
+        if self.cb.canon.lock().is_some() {
+            for e in s.entries.iter_mut() {
+                e.conflict = self.cb.canon_conflict(e.index, e.conflict);
+            }
+            for (_, keys) in s.buckets.iter_mut() {
+                for (k, c) in keys.iter_mut() {
+                    *c = self.cb.canon_conflict(*k, *c);
+                }
+            }
+        }
+        s
     }
     fn estimate(&self, index: u64) -> i64 {
         self.cache.verif_estimate(index)
@@ -503,12 +545,30 @@ fn noop_waker() -> Waker {
     unsafe { Waker::from_raw(RawWaker::new(std::ptr::null(), &VTABLE)) }
 }
 
-pub struct AsyncSut {
+pub struct AsyncSut<KH: stretto::KeyBuilder<Key = u64> = TableKB, C = TagCoster, U = Validator> {
     pub wrappers: bool,
     pub cap: usize,
-    pub cache: ACache,
-    pub proc_: RefCell<AsyncParkedProcessor<Val, Validator, RecCallback, DetS>>,
+    pub cache: AsyncCache<u64, Val, KH, C, U, RecCallback, DetS>,
+    pub proc_: RefCell<AsyncParkedProcessor<Val, U, RecCallback, DetS>>,
     pub cb: RecCallback,
+}
+
+pub type AsyncSutDefaults = AsyncSut<stretto::DefaultKeyBuilder<u64>, stretto::DefaultCoster<Val>, stretto::DefaultUpdateValidator<Val>>;
+
+impl AsyncSutDefaults {
+    pub fn build_defaults(cfg: &BuildCfg) -> Result<Self, stretto::CacheError> {
+        let cb = RecCallback::default();
+        *cb.canon.lock() = Some(cfg.keys.iter().copied().collect());
+        let (cache, proc_) = AsyncCacheBuilder::<u64, Val>::new(cfg.num_counters, cfg.max_cost)
+            .set_buffer_size(cfg.buffer_size)
+            .set_buffer_items(cfg.buffer_items)
+            .set_ignore_internal_cost(cfg.ignore_internal_cost)
+            .set_metrics(cfg.metrics)
+            .set_callback(cb.clone())
+            .set_hasher(DetS::default())
+            .verif_finalize_parked()?;
+        Ok(AsyncSut { wrappers: cfg.order >= 5, cap: cfg.buffer_size, cache, proc_: RefCell::new(proc_), cb })
+    }
 }
 
 impl AsyncSut {
@@ -527,6 +587,14 @@ impl AsyncSut {
         })
     }
 
+}
+
+impl<KH, C, U> AsyncSut<KH, C, U>
+where
+    KH: stretto::KeyBuilder<Key = u64> + Send + Sync + 'static,
+    C: stretto::Coster<Value = Val>,
+    U: stretto::UpdateValidator<Value = Val>,
+{
     fn do_step(&self, kind: StepKind) -> Option<StepObs> {
         let r = match self.proc_.try_borrow_mut() {
             Ok(mut p) => match kind {
@@ -590,7 +658,12 @@ impl AsyncSut {
     }
 }
 
-impl Sut for AsyncSut {
+impl<KH, C, U> Sut for AsyncSut<KH, C, U>
+where
+    KH: stretto::KeyBuilder<Key = u64> + Send + Sync + 'static,
+    C: stretto::Coster<Value = Val>,
+    U: stretto::UpdateValidator<Value = Val>,
+{
     fn insert(&self, k: u64, v: Val, cost: i64, ttl: Duration) -> Result<bool, String> {
         if self.wrappers {
             return unwrapped(|| if ttl.is_zero() { self.now(self.cache.insert(k, v, cost)) } else { self.now(self.cache.insert_with_ttl(k, v, cost, ttl)) });
@@ -686,7 +759,18 @@ impl Sut for AsyncSut {
         }
     }
     fn snapshot(&self) -> Snapshot<Val> {
-        self.cache.verif_snapshot()
+        let mut s = self.cache.verif_snapshot();
+        if self.cb.canon.lock().is_some() {
+            for e in s.entries.iter_mut() {
+                e.conflict = self.cb.canon_conflict(e.index, e.conflict);
+            }
+            for (_, keys) in s.buckets.iter_mut() {
+                for (k, c) in keys.iter_mut() {
+                    *c = self.cb.canon_conflict(*k, *c);
+                }
+            }
+        }
+        s
     }
     fn estimate(&self, index: u64) -> i64 {
         self.cache.verif_estimate(index)
